@@ -2,7 +2,12 @@ package api
 
 // C11: session routes need the session secret; admin routes the network password.
 
-import "github.com/robustirc/robustirc/internal/robust"
+import (
+	"strconv"
+
+	"github.com/robustirc/robustirc/internal/ircserver"
+	"github.com/robustirc/robustirc/internal/robust"
+)
 
 var vMethods = []string{"GET", "POST", "DELETE", "PUT"}
 
@@ -73,5 +78,47 @@ func verifHarness_C11_private() {
 	if !authed {
 		verifAssert(w.status == 401, "wrong-credentials-answer-401")
 		verifAssert(vLeaf == "", "wrong-credentials-reach-no-handler")
+	}
+}
+
+// C17 (API mapping): for an id newer than everything this node has applied
+// ("not yet seen") the read route answers 500 (retry), never 404 ("no such
+// session"), and on a follower the write routes are forwarded to the leader;
+// for a deleted session every route answers 404.
+func verifHarness_C17_api() {
+	vReset()
+	i, _ := vServer()
+	vRaftLeader = nondetBool()
+	api := &HTTP{ircServerUnlocked: i, network: "robustirc.net", getMessagesRequests: make(map[string]GetMessagesStats)}
+	sid := nondetString(3)
+	id, perr := strconv.ParseUint(sid, 0, 64)
+	verifAssume(perr == nil)
+	_, lerr := i.GetSession(robust.Id{Id: id})
+	verifAssume(lerr != nil)
+	header := nondetString(3)
+	verifAssume(header != "")
+	r := vRequest("GET", "/robustirc/v1/"+sid+"/messages")
+	r.Header.Set("X-Session-Auth", header)
+	w := &vWriter{hdr: make(map[string][]string)}
+	if verifCase(2) == 0 {
+		verifCaseLabel("read route")
+		api.handleGetMessages(w, r, sid)
+		verifAssert(vLeaf == "", "unknown-session-reaches-no-handler")
+		if lerr == ircserver.ErrSessionNotYetSeen {
+			verifAssert(w.status == 500, "not-yet-seen-read-answers-retry-not-gone")
+		} else {
+			verifAssert(w.status == 404, "deleted-session-read-answers-gone")
+		}
+		return
+	}
+	verifCaseLabel("write route")
+	_, err := api.sessionOrProxy(w, r, sid)
+	verifAssert(err != nil, "unknown-session-is-refused")
+	if lerr == ircserver.ErrSessionNotYetSeen {
+		if !vRaftLeader {
+			verifAssert(verifAnd(vProxied, w.status == 0), "not-yet-seen-write-on-follower-is-forwarded")
+		}
+	} else {
+		verifAssert(verifAnd(!vProxied, w.status == 404), "deleted-session-write-answers-gone")
 	}
 }
